@@ -21,7 +21,7 @@ import (
 )
 
 type Op struct {
-	K string `json:"k"` // write writebyte writestring flush close abandon kill
+	K string `json:"k"` // write writebyte writestring flush close abandon kill open
 	N int    `json:"n,omitempty"`
 	B byte   `json:"b,omitempty"` // fill byte seed
 }
@@ -70,6 +70,16 @@ func gen(t *rapid.T) Case {
 			op.N = sizeGen().Draw(t, "n")
 		}
 		c.Ops = append(c.Ops, op)
+		if k == "close" && rapid.Bool().Draw(t, "openAfterClose") {
+			// the writer of the message being assembled meets the closed transport and gives up; then
+			// somebody calls Open (the thrift idiom "if !IsOpen() { Open() }") and goes on writing
+			if rapid.Bool().Draw(t, "writeWhileClosed") {
+				c.Ops = append(c.Ops, Op{K: "write", N: rapid.IntRange(1, 50).Draw(t, "wn"), B: 3}, Op{K: "abandon"})
+			}
+			c.Ops = append(c.Ops, Op{K: "open"})
+		} else if rapid.IntRange(0, 11).Draw(t, "open?") == 0 {
+			c.Ops = append(c.Ops, Op{K: "open"})
+		}
 		// a writer that got an error abandons the message (the generated thrift client does)
 		if rapid.IntRange(0, 1).Draw(t, "abandonAfterError") == 0 {
 			c.Ops = append(c.Ops, Op{K: "abandon"})
@@ -253,6 +263,13 @@ func run(c Case) (pbt.Outcome, error) {
 				}
 			}
 		case "abandon":
+			if lastWriteErr && closed {
+				// refused by the closed transport: the writer gives up on the message; should the transport
+				// ever accept writes again (see "open"), a new message starts
+				lastWriteErr = false
+				model = nil
+				continue
+			}
 			if !lastWriteErr || closed {
 				continue
 			}
@@ -346,6 +363,23 @@ func run(c Case) (pbt.Outcome, error) {
 			closed = true
 			if tr.IsOpen() {
 				errs.Addf("IsOpen() is true after Close")
+			}
+		case "open":
+			// Open is documented as a no-op on these transports. On an open transport it returns nil and
+			// changes nothing; on a closed one it may leave the transport closed (as this tree does) or,
+			// if IsOpen() says so afterwards, have re-opened it - then it is judged like an open transport
+			// from here on: the next flushed message is exactly what was accepted for it.
+			err := tr.Open()
+			if !closed {
+				if err != nil {
+					errs.Addf("%s on an open transport returned %v", what, err)
+				}
+				if !tr.IsOpen() {
+					errs.Addf("IsOpen() is false after Open on an open transport")
+				}
+			} else if tr.IsOpen() {
+				closed, killed = false, false
+				out.Classes = append(out.Classes, "reopened")
 			}
 		case "killsink":
 			if c.Sinks < 2 || closed || len(dead) == c.Sinks-1 || dead[op.N%c.Sinks] {
@@ -468,7 +502,7 @@ func head(b []byte) string {
 func TestC15(t *testing.T) {
 	pbt.Main(t, pbt.Prop[Case]{
 		ID: "C15", Name: "transport",
-		Rule: "rapid-generated histories (1..14 ops + a closing 5-byte message) on a TUDPTransport or a TMultiUDPTransport with 1..3 real loopback UDP sinks: Write/WriteString/WriteByte with sizes around the 65000-byte limit (64999, 65000, 65001, halves, 60000..66000) and small, Flush, Close, killing the socket behind the transport (single) or one destination of a multi transport going away (sends to it fail; the live destinations must keep receiving every later message complete, alone and byte-equal, and every message whose Flush returned nil), and the writer abandoning a message after an error. Reference model: buffer = concatenation of accepted writes since the last Flush; each successful Flush => exactly one byte-equal datagram at every sink; after any Flush a 65000-byte write fits again (buffer emptied whether or not the send succeeded); an over-long write is refused with an error and adds nothing; after Close every call fails with NOT_OPEN and Close is idempotent; no stray datagrams. A message abandoned after a refused write with bytes already buffered is the recorded stale-prefix finding: excluded only while listed open. Non-trivial: a fault (refused write, failed send) followed by a successful message. Distinct: FNV-64 of the case JSON.",
+		Rule: "rapid-generated histories (1..14 ops + a closing 5-byte message) on a TUDPTransport or a TMultiUDPTransport with 1..3 real loopback UDP sinks: Write/WriteString/WriteByte with sizes around the 65000-byte limit (64999, 65000, 65001, halves, 60000..66000) and small, Flush, Close, killing the socket behind the transport (single) or one destination of a multi transport going away (sends to it fail; the live destinations must keep receiving every later message complete, alone and byte-equal, and every message whose Flush returned nil), the writer abandoning a message after an error, and Open - a no-op on an open transport; on a closed one either it stays closed or, if IsOpen() then says true, it is judged as an open transport again (after a message was abandoned at the closed transport, the next message is exactly what was accepted for it). Reference model: buffer = concatenation of accepted writes since the last Flush; each successful Flush => exactly one byte-equal datagram at every sink; after any Flush a 65000-byte write fits again (buffer emptied whether or not the send succeeded); an over-long write is refused with an error and adds nothing; after Close every call fails with NOT_OPEN and Close is idempotent; no stray datagrams. A message abandoned after a refused write with bytes already buffered is the recorded stale-prefix finding: excluded only while listed open. Non-trivial: a fault (refused write, failed send) followed by a successful message. Distinct: FNV-64 of the case JSON.",
 		Gen:  gen, Run: run, HangAfter: 120 * time.Second,
 	})
 }
